@@ -37,12 +37,14 @@ type rtCfg struct {
 	Starve     int
 	StarveMax  time.Duration
 	Storm      bool
+	SlowWrite  int // permille of the client's writes that stall inside the call
+	SlowMax    time.Duration
 	MaxSteps   int
 }
 
 func (c rtCfg) String() string {
-	return fmt.Sprintf("retain=%d P=%v senders=%dx%d think=%v werr=%d busy=%d storm=%v lost=%d inbound=%d reader=%s closeearly=%v sticky=%d pct=%d tlate=%d starve=%d/%v",
-		c.Retain, c.P, c.Senders, c.SendsEach, c.Think, c.WriteErr, c.Busy, c.Storm, c.Lost, c.Inbound, c.Reader, c.CloseEarly, c.Sticky, c.PCT, c.TimerLate, c.Starve, c.StarveMax)
+	return fmt.Sprintf("retain=%d P=%v senders=%dx%d think=%v werr=%d busy=%d storm=%v lost=%d inbound=%d reader=%s closeearly=%v sticky=%d pct=%d tlate=%d starve=%d/%v slowwrite=%d/%v",
+		c.Retain, c.P, c.Senders, c.SendsEach, c.Think, c.WriteErr, c.Busy, c.Storm, c.Lost, c.Inbound, c.Reader, c.CloseEarly, c.Sticky, c.PCT, c.TimerLate, c.Starve, c.StarveMax, c.SlowWrite, c.SlowMax)
 }
 
 func drawRtCfg(e *Env) rtCfg {
@@ -64,6 +66,13 @@ func drawRtCfg(e *Env) rtCfg {
 	}
 	switch p {
 	case "C13":
+		if shape >= 4 {
+			c.WriteErr = []int{0, 0, 50, 200}[e.Choose("cfg.werr13", 4)]
+			if e.Choose("cfg.slow", 3) == 0 {
+				c.SlowWrite = []int{100, 400}[e.Choose("cfg.slowp", 2)]
+				c.SlowMax = e.PickDur("cfg.slowmax", 3*time.Millisecond, 15*time.Millisecond, 40*time.Millisecond)
+			}
+		}
 		c.Busy = e.Choose("cfg.busy", 8)
 		c.Storm = e.Choose("cfg.storm", 3) == 0
 		if shape == 9 {
@@ -176,7 +185,7 @@ func runRouter(e *Env) {
 			sc.MaxSteps = c.MaxSteps
 		}
 	})
-	e.F.SetLink(clientIP, groupIP, simnet.Link{DelayMin: 100 * time.Microsecond, WriteErrPermille: c.WriteErr})
+	e.F.SetLink(clientIP, groupIP, simnet.Link{DelayMin: 100 * time.Microsecond, WriteErrPermille: c.WriteErr, SlowWritePermille: c.SlowWrite, SlowWriteMax: c.SlowMax})
 	e.F.SetLink(peerIP, groupIP, simnet.Link{DelayMin: 100 * time.Microsecond})
 	r := &rtRun{e: e, c: c, stop: make(chan struct{}), nextID: 0x100}
 	r.group = &net.UDPAddr{IP: net.ParseIP(groupIP).To4(), Port: gwPort}
@@ -608,6 +617,9 @@ func checkRouter(r *rtRun) {
 			}
 		}
 		bound := time.Duration(pending+1)*(c.P+eps) + time.Duration(n)*(50*time.Millisecond+eps) + eps
+		if c.SlowWrite > 0 {
+			bound += time.Duration(pending+1) * c.SlowMax // each transmission may stall inside the write
+		}
 		for _, s := range r.sends {
 			if s.Inv.Seq < lastBusy.Seq && s.Done && s.Ret.Seq > lastBusy.Seq && s.Ret.T-lastBusy.T > bound {
 				e.Violate("C13", "resume-too-late", "Send id=%d, pending when the last routing-busy indication was read at %v, returned %v later; bound %v (%d pending Sends, pause %v, %d busy indications)", s.ID, lastBusy.T, s.Ret.T-lastBusy.T, bound, pending, c.P, n)
